@@ -65,6 +65,8 @@ type c06Scenario struct {
 	SecondClose    bool         `json:"second_close"` // one more Close after the first wave returned, before the release
 	Cancel         bool         `json:"cancel"`       // the user cancels Run's context (gated by a rule on api.cancel.gate)
 	D6Helper       bool         `json:"d6_helper"`
+	Unstarted      int          `json:"unstarted"` // handlers added after Run and never started with RunHandlers
+	W1Stuck        bool         `json:"w1_stuck"`  // after a timed-out Close and after EVERY subscription was ended: the handlersWg wait still does not end
 	Rules          []c06Rule    `json:"rules"`
 	Perturb        float64      `json:"perturb"`
 
@@ -277,7 +279,7 @@ func c06Run(rt *hookrt.Runtime, sc *c06Scenario) {
 		rt.AddRule(&hookrt.ParkRule{Point: "api.wait.hc", Keys: []string{fmt.Sprintf("h%d", h)}, Until: "router.handler.handleclose.stop",
 			UntilKeys: []string{fmt.Sprintf("h%d", h)}, Timeout: 3 * time.Second})
 	}
-	rt.AddRule(&hookrt.ParkRule{Point: "api.wait.w1", Until: "router.close.loops_done", Timeout: 3 * time.Second})
+	w1Rule := rt.AddRule(&hookrt.ParkRule{Point: "api.wait.w1", Until: "router.close.loops_done", Timeout: 3 * time.Second})
 	rt.AddRule(&hookrt.ParkRule{Point: "api.wait.w2", Until: "router.close.running_unlock", Timeout: 3 * time.Second})
 	subs := make([]*c06Sub, nh)
 	pubs := make([]*c06Pub, nh)
@@ -333,6 +335,10 @@ func c06Run(rt *hookrt.Runtime, sc *c06Scenario) {
 		return
 	}
 	verifhook.At("api.running")
+	for i := 0; i < sc.Unstarted; i++ {
+		name := fmt.Sprintf("u%d", i)
+		router.AddNoPublisherHandler(name, "t"+name, newC06Sub(name, true), func(*message.Message) error { return nil })
+	}
 
 	// emitters
 	var emitWg sync.WaitGroup
@@ -498,6 +504,7 @@ func c06Run(rt *hookrt.Runtime, sc *c06Scenario) {
 	if timedOut {
 		verifhook.At("api.wait.w1")
 		verifhook.At("api.wait.w2")
+		sc.W1Stuck = w1Rule.TimedOut > 0
 	}
 	time.Sleep(2 * time.Millisecond)
 }
@@ -634,6 +641,12 @@ func c06Forced(honour bool) []*c06Scenario {
 					CloseTimeoutMs: 60, Closers: closers, SecondClose: true, Rules: rules})
 			}
 		}
+	}
+	// a handler that was added after Run and never started (no RunHandlers): Close must not wait for it
+	for _, closers := range []int{1, 3} {
+		out = append(out, &c06Scenario{Name: fmt.Sprintf("handler-added-never-started/closers=%d/%s", closers, hn), Kind: "forced", Handlers: hs(false),
+			CloseTimeoutMs: 400, Closers: closers, SecondClose: true, Unstarted: 1,
+			Rules: []c06Rule{{Point: "api.close.gate", Until: "api.handler.end", UntilKeys: []string{target}, TimeoutMs: 400}}})
 	}
 	// D5 witness: a received message is dispatched only after the running-handlers wait of Close finished
 	for _, p := range c06Points[:2] {
